@@ -8,7 +8,7 @@ SHADOW_DEFS = {
     "Sized": "pub trait Sized {}", "Box": "pub struct Box;", "Option": "pub enum Option {}", "Result": "pub enum Result {}",
     "std": "pub mod std {}", "own-value": "#[allow(non_snake_case)] pub fn {NAME}() {}", "EntraitT-value": "#[allow(non_upper_case_globals)] pub const EntraitT: u8 = 0;",
 }
-PROGS = ["fn", "fn-async-bounds", "fn-byvalue", "mod", "concrete", "trait-self", "trait-self-async", "trait-ref", "trait-borrow", "di-static", "di-dyn-at", "di-dyn", "di-dyn-borrow"]
+PROGS = ["fn", "fn-async-bounds", "fn-byvalue", "mod", "concrete", "trait-self", "trait-self-async", "trait-ref", "trait-borrow", "di-static", "di-dyn-at", "di-dyn", "di-dyn-borrow", "fn-chain"]
 
 
 def render(prog, name, case, nostd=False):
@@ -71,6 +71,16 @@ def render(prog, name, case, nostd=False):
             call = f"::vt::block_on({call})"
         run = f"let app = ::entrait::Impl::new(App); let r = ::std::format!(\"{{}}\", {call});"
         probes = [("impl", "::entrait::Impl<App>", N), ("implOther", "::entrait::Impl<()>", N)]
+    elif prog == "fn-chain":
+        # the generated trait {N} has a real requirement (Dep0) and is itself the dependency bound of further functions,
+        # written as `impl {N}` and as a where-clause bound
+        items = (f"pub struct St(pub i32);\n#[::entrait::entrait(pub Dep0)]\nfn dep0(st: &St, a: i32) -> i32 {{ st.0 + a * 2 }}\n"
+                 f"#[::entrait::entrait(pub {N})]\nfn f(deps: &impl Dep0, a: i32) -> i32 {{ deps.dep0(a) + 1 }}\n"
+                 f"#[::entrait::entrait(pub User1)]\nfn g(deps: &impl {N}, a: i32) -> i32 {{ deps.f(a) + 1 }}\n"
+                 f"#[::entrait::entrait(pub User2)]\nfn h<D>(deps: &D, a: i32) -> i32 where D: {N} {{ deps.f(a) + 2 }}\n")
+        run = (f"let app = ::entrait::Impl::new(St(10)); let r = ::std::format!(\"{{}}/{{}}\", <::entrait::Impl<St> as User1>::g(&app, 1), "
+               f"<::entrait::Impl<St> as User2>::h(&app, 1));")
+        probes = [("impl", "::entrait::Impl<St>", "User1"), ("impl2", "::entrait::Impl<St>", "User2"), ("implOther", "::entrait::Impl<()>", "User1")]
     elif prog in ("di-dyn", "di-dyn-borrow"):
         # dynamic dependency inversion without async: `dyn NImpl<T>` reached through AsRef / Borrow
         sel = "ref" if prog == "di-dyn" else "Borrow"
